@@ -15,7 +15,7 @@ COMPONENTS = {
     'stub': ['OS thread scheduling', 'clocks', 'os.urandom', 'object store (SimStore)'],
     'reference': ['sim/ref_format.py', 'sim/history.py model'],
 }
-ASSUMPTIONS = ['crash-free histories', 'max_length is a multiple of the alignment (otherwise see the C10 known finding)', 'directory enumeration order changes between snapshots (seeded)', 'duplicate transfers of one chunk by two concurrent workers inside one snapshot are not counted (objects, not transfers)']
+ASSUMPTIONS = ['crash-free histories', 'directory enumeration order changes between snapshots (seeded)', 'duplicate transfers of one chunk by two concurrent workers inside one snapshot are not counted (objects, not transfers)']
 PROBES = ['delete', 'clean']
 TIERS = {'quick': {'budget_s': 70, 'batch': 10}, 'thorough': {'budget_s': 900, 'batch': 20}}
 ORACLES = ('store', 'exact', 'dedup')
@@ -23,10 +23,6 @@ ORACLES = ('store', 'exact', 'dedup')
 
 def gen_case(seed, tier):
     case = history.gen_history(seed, 'c07', nops=(3, 10), destructive=True, overlap=False, reads=False)
-    # with max_length % 4 != 0 the chunker reads past its buffer and boundaries depend on adjacent memory
-    # (known finding C10-oob-unaligned-max); deduplication is judged on configurations where chunking is a function of the data
-    ch = case['settings']['chunking']
-    ch['max_length'] = (ch['max_length'] + 3) & -4
     return case
 
 
